@@ -1895,10 +1895,12 @@ replicas in datacenter `d`.  The theorems hold for ANY `V` - any shards, a node 
 `TabletOK`. -/
 
 open ScyllaVerif.Routing in
-/-- What `update_tablets` guarantees about a tablet's replica lists: the per-datacenter lists are sublists of the full
-list (C15: order-preserving filter) in that datacenter, and known nodes with equal host id are the same node. -/
+/-- What `update_tablets` guarantees about a tablet's replica lists: the per-datacenter list of `d` consists of exactly
+the members of the full list that are in `d` (C15: order-preserving filter), and known nodes with equal host id are the
+same node. -/
 structure TabletOK (cl : Cluster) (V : Option Nat → List SRep) : Prop where
   dcSub : ∀ d, ∀ r ∈ V (some d), r ∈ V none ∧ r.1.dc = some d
+  dcAll : ∀ d, ∀ r ∈ V none, r.1.dc = some d → r ∈ V (some d)
   distinctIds : ∀ a b : Node, (a ∈ allNodes cl ∨ a ∈ (V none).map (·.1)) → (b ∈ allNodes cl ∨ b ∈ (V none).map (·.1)) →
     a.id = b.id → a = b
 
@@ -2344,7 +2346,210 @@ theorem tplan_lwt_deterministic (cl : Cluster) (cfg : Config) (rq : Request) (V 
     rw [h1, h2, List.append_nil]
   rw [key ρ, key ρ']
 
+/-- **Tablet tables, who carries a shard - both directions**: `(n, Some(s))` is a target of the plan exactly when the
+request is token-aware routable, `(n, s)` is a replica entry of the covering tablet, `n` is alive and the datacenter
+rule permits `n`.  (With `tplan_sharded_are_live_replicas`: the shard-bearing targets are EXACTLY the live permitted
+tablet replicas, each with the tablet's shard; the ring-table analogue is `plan_shard_iff`.) -/
+theorem tplan_shard_iff {cl : Cluster} (hwf : WF cl) (cfg : Config) (rq : Request) {V : Option Nat → List SRep}
+    (hV : TabletOK cl V) (ρp : RhoPick) (ρf : RhoFb) (n : Node) (s : Nat) :
+    (n, some s) ∈ planT cl cfg rq V ρp ρf ↔
+      (tokenAware cl cfg rq = true ∧ (n, s) ∈ V none ∧ cl.alive n = true ∧ Permitted cfg rq n) := by
+  rw [tplan_mem_iff hwf cfg rq hV ρp ρf]
+  constructor
+  · intro h
+    have hc := fallbackT_sub h
+    unfold chainT at hc
+    rw [List.flatten_append, List.mem_append] at hc
+    rcases hc with hc | hc
+    · split at hc
+      · rename_i hta
+        obtain ⟨crit, r, hr, ht, hc1, hc2⟩ := mem_replicaGroupsT hc
+        obtain ⟨h1, h2, _⟩ := mem_filteredT hr
+        have hrn : r = (n, s) := by
+          unfold targetT at ht
+          simp only [Prod.mk.injEq, Option.some.injEq] at ht
+          exact Prod.ext ht.1.symm ht.2.symm
+        subst hrn
+        refine ⟨hta, ?_, h2, ?_⟩
+        · cases hd : crit.datacenter with
+          | none => rw [hd] at h1; exact h1
+          | some d => rw [hd] at h1; exact (hV.dcSub d _ h1).1
+        · unfold Permitted
+          cases hd : crit.datacenter with
+          | none =>
+            rcases hc2 hd with h' | h'
+            · exact Or.inl h'
+            · exact Or.inr (Or.inl ((failoverPossible_iff cfg rq).mp h').2)
+          | some d =>
+            rw [hd] at h1
+            rcases hc1 with h' | h'
+            · rw [hd] at h'; cases h'
+            · rw [hd] at h'
+              exact Or.inr (Or.inr (by rw [← h']; exact (hV.dcSub d _ h1).2))
+      · simp at hc
+    · have := drop3_shardless cl cfg (rqNoToken rq) ρf _ hc
+      cases this
+  · rintro ⟨hta, hr, ha, hperm⟩
+    -- the entry is in one of the replica groups
+    have hin : (n, some s) ∈ (if tokenAware cl cfg rq then replicaGroupsT cl cfg rq V ρf else []).flatten := by
+      rw [if_pos hta]
+      have hany : (n, some s) ∈ replicaTargetsT cl V .any rq.routeAsLwt ρf.shufAny := by
+        rw [mem_replicaTargetsT]
+        refine ⟨(n, s), ?_, rfl⟩
+        unfold filteredT predT
+        exact List.mem_filter.mpr ⟨hr, by simp [ha, rackOk]⟩
+      unfold replicaGroupsT
+      simp only [List.flatten_cons, List.flatten_nil, List.append_nil, List.mem_append]
+      cases hd : (preference cfg rq).datacenter with
+      | none => exact Or.inr (Or.inr (by simpa [hd] using hany))
+      | some d =>
+        unfold Permitted at hperm
+        rw [hd] at hperm
+        rcases hperm with h' | h' | h'
+        · cases h'
+        · have hfp : failoverPossible cfg rq = true := (failoverPossible_iff cfg rq).mpr ⟨by rw [hd]; simp, h'⟩
+          exact Or.inr (Or.inr (by simpa [hd, hfp] using hany))
+        · refine Or.inr (Or.inl ?_)
+          simp only []
+          rw [mem_replicaTargetsT]
+          refine ⟨(n, s), ?_, rfl⟩
+          unfold filteredT predT
+          exact List.mem_filter.mpr ⟨hV.dcAll d _ hr h', by simp [ha, rackOk]⟩
+    -- it survives the de-duplication: among replica targets, comparator-equal means identical
+    rw [fallbackT_eq]
+    unfold chainT
+    rw [List.flatten_append]
+    apply mem_uniqueByFrom_append_left
+    obtain ⟨u, hu, hut⟩ := (uniqueBy_spec _).2.2 _ hin
+    have huR := (uniqueByFrom_sublist [] _).subset hu
+    have : u = (n, some s) := by
+      rw [if_pos hta] at huR
+      obtain ⟨crit, r', hr', rfl, _⟩ := mem_replicaGroupsT huR
+      obtain ⟨h1', _, _⟩ := mem_filteredT hr'
+      have hr'n : r' ∈ V none := by
+        cases hd : crit.datacenter with
+        | none => rw [hd] at h1'; exact h1'
+        | some d => rw [hd] at h1'; exact (hV.dcSub d _ h1').1
+      unfold targetEq targetT at hut
+      simp only [Bool.and_eq_true, beq_iff_eq] at hut
+      have hnode : r'.1 = n := hV.distinctIds _ _ (Or.inr (List.mem_map.mpr ⟨r', hr'n, rfl⟩))
+        (Or.inr (List.mem_map.mpr ⟨(n, s), hr, rfl⟩)) hut.1
+      unfold targetT
+      rw [hnode, hut.2]
+    rw [← this]; exact hu
+
 end tablets
+
+open ScyllaVerif.Drive.Topology ScyllaVerif.Drive.C05 ScyllaVerif.Routing in
+private theorem parseReps_nodes {ps : List (Peer × String)} {w : String} {reps : List SRep}
+    (h : parseReps ps w = some reps) : ∀ r ∈ reps, ∃ p ∈ ps, p.1.node = r.1 := by
+  unfold parseReps at h
+  split at h
+  · cases h
+  · rename_i l _
+    intro r hr
+    obtain ⟨o, _, ho⟩ := mapM_option_mem _ _ _ h r hr
+    split at ho
+    · rename_i sh p _ hp
+      simp only [Option.some.injEq] at ho
+      subst ho
+      exact ⟨p, List.mem_of_find?_eq_some hp, rfl⟩
+    · cases ho
+
+open ScyllaVerif.Drive.Topology ScyllaVerif.Drive.C05 ScyllaVerif.Routing in
+/-- **The tablet replica lists of the differential run satisfy `TabletOK`**: whatever topology and tablets the case-line
+parsers accept and whichever tablet covers the token, the driver's `V = tabletV (coveringReps tabs tok)` (the list, or
+its members of one datacenter) fits the cluster `mkCluster` - so the tablet theorems apply to every `tplan` case. -/
+theorem driver_TabletOK {topo kss tabS : String} {ps : List (Peer × String)} {ks : List Strategy}
+    {tabs : List (Int × Int × List SRep)} (tok rtok : Option Int)
+    (h1 : parseTopologyEx topo = some ps) (h2 : parseStrategies kss = some ks) (h3 : parseTablets ps tabS = some tabs) :
+    TabletOK (mkCluster ps ks tok) (tabletV (coveringReps tabs rtok)) := by
+  have hwf := mkCluster_WF tok h1 h2
+  -- every replica node of every accepted tablet is the node of a peer
+  have htab : ∀ x ∈ tabs, ∀ r ∈ x.2.2, ∃ p ∈ ps, p.1.node = r.1 := by
+    unfold parseTablets at h3
+    split at h3
+    · cases h3; simp
+    · split at h3
+      · rename_i ts hts
+        split at h3
+        · cases h3
+          intro x hx r hr
+          obtain ⟨w, _, hw⟩ := mapM_option_mem _ _ _ hts x hx
+          unfold parseTabletOne at hw
+          split at hw
+          · rename_i rs _
+            cases hp : parseReps ps rs with
+            | none => rw [hp] at hw; cases hw
+            | some reps =>
+              rw [hp] at hw
+              simp only [Option.map_some, Option.some.injEq] at hw
+              subst hw
+              exact parseReps_nodes hp r hr
+          · split at hw
+            · rename_i f l reps _ _ hp
+              split at hw
+              · simp only [Option.some.injEq] at hw
+                subst hw
+                exact parseReps_nodes hp r hr
+              · cases hw
+            · cases hw
+          · cases hw
+        · cases h3
+      · cases h3
+  have hcov : ∀ r ∈ coveringReps tabs rtok, ∃ p ∈ ps, p.1.node = r.1 := by
+    intro r hr
+    unfold coveringReps at hr
+    split at hr
+    · simp at hr
+    · split at hr
+      · rename_i x hx
+        exact htab x (List.mem_of_find?_eq_some hx) r hr
+      · simp at hr
+  -- host ids of the accepted peers are pairwise distinct (as in mkCluster_WF)
+  have hids : (ps.map (·.1.node.id)).Nodup := by
+    unfold parseTopologyEx at h1
+    split at h1
+    · cases h1; exact List.nodup_nil
+    · split at h1
+      · cases h1
+      · simp only [] at h1
+        split at h1
+        · rename_i hc
+          cases h1
+          simp only [Bool.and_eq_true, beq_iff_eq] at hc
+          exact nodup_of_eraseDups_length _ hc.1
+        · cases h1
+  have hring : ∀ a ∈ allNodes (mkCluster ps ks tok), ∃ p ∈ ps, p.1.node = a := by
+    intro a ha
+    unfold allNodes uniqueNodes at ha
+    rw [mem_uniq] at ha
+    obtain ⟨e, he, rfl⟩ := List.mem_map.mp ha
+    have he' : e ∈ Topology.entries (ps.map (·.1)) := (mkRing_perm _).mem_iff.mp he
+    unfold Topology.entries at he'
+    obtain ⟨p, hp, hpe⟩ := List.mem_flatMap.mp he'
+    obtain ⟨tk, _, rfl⟩ := List.mem_map.mp hpe
+    obtain ⟨q, hq, rfl⟩ := List.mem_map.mp hp
+    exact ⟨q, hq, rfl⟩
+  refine ⟨?_, ?_, ?_⟩
+  · intro d r hr
+    simp only [tabletV, List.mem_filter, beq_iff_eq] at hr
+    exact ⟨hr.1, hr.2⟩
+  · intro d r hr hd
+    simp only [tabletV, List.mem_filter, beq_iff_eq]
+    exact ⟨hr, hd⟩
+  · have hpeer : ∀ a, (a ∈ allNodes (mkCluster ps ks tok) ∨ a ∈ (tabletV (coveringReps tabs rtok) none).map (·.1)) →
+        ∃ p ∈ ps, p.1.node = a := by
+      intro a ha
+      rcases ha with ha | ha
+      · exact hring a ha
+      · obtain ⟨r, hr, rfl⟩ := List.mem_map.mp ha
+        exact hcov r hr
+    intro a b ha hb hab
+    obtain ⟨p, hp, rfl⟩ := hpeer a ha
+    obtain ⟨q, hq, rfl⟩ := hpeer b hb
+    have : p = q := inj_of_nodup_map (fun x : Peer × String => x.1.node.id) hids hp hq hab
+    rw [this]
 
 /-! ### non-vacuity for the tablet theorems: a tablet that lists node 3 with two shards (and the down node 2) -/
 
@@ -2362,10 +2567,13 @@ def exVT : Option Nat → List SRep := fun dc =>
 example : TabletOK exCluster exVT := by
   have hsub : ∀ a ∈ (exVT none).map (·.1), a ∈ allNodes exCluster := by decide
   have hd : ∀ a ∈ allNodes exCluster, ∀ b ∈ allNodes exCluster, a.id = b.id → a = b := by decide
-  refine ⟨?_, ?_⟩
+  refine ⟨?_, ?_, ?_⟩
   · intro d r hr
     simp only [exVT, List.mem_filter, beq_iff_eq] at hr
     exact ⟨hr.1, hr.2⟩
+  · intro d r hr hd
+    simp only [exVT, List.mem_filter, beq_iff_eq]
+    exact ⟨hr, hd⟩
   · intro a b ha hb hab
     exact hd a (ha.elim id (hsub a)) b (hb.elim id (hsub b)) hab
 
